@@ -437,3 +437,62 @@ func ZZ_C09_Conc() {
 	}
 	zzrt.Reach("dead-letters-while-the-registry-is-written")
 }
+
+// ZZ_C12_Prune: S subscribers subscribe in a chosen order; some of them then stop without unsubscribing (their
+// PIDs leave the registry); the events broadcast afterwards must reach every remaining subscriber exactly once
+// and in order, whatever the position of the dead ones in the event stream's bookkeeping.
+func ZZ_C12_Prune() {
+	S := zzrt.Param("S")
+	e, real := zzEngineWithStream()
+	es := &zzQueueProc{pid: e.eventStream, recv: real.Producer(), e: e}
+	e.Registry.lookup[es.pid.ID] = es
+	drain := func() {
+		for i := 0; len(es.q) > 0 && i < 64; i++ {
+			es.step()
+		}
+	}
+	subs := make([]*ZZRecProc, S)
+	for i := range subs {
+		subs[i] = &ZZRecProc{Pid: NewPID(e.address, "sub"+pidSeparator+string(rune('0'+i)))}
+		e.Registry.lookup[subs[i].Pid.ID] = subs[i]
+	}
+	// subscription order: a rotation of 0..S-1, forwards or backwards
+	rot, back := zzrt.Choose(S), zzrt.Choose(2) == 1
+	for k := 0; k < S; k++ {
+		i := (rot + k) % S
+		if back {
+			i = (rot + S - k) % S
+		}
+		e.Subscribe(subs[i].Pid)
+		drain()
+	}
+	alive := make([]bool, S)
+	nDead := 0
+	for i := range alive {
+		alive[i] = zzrt.Choose(2) == 0
+		if !alive[i] {
+			nDead++
+			delete(e.Registry.lookup, subs[i].Pid.ID)
+		}
+	}
+	if nDead > 0 && nDead < S {
+		zzrt.Reach("some-subscribers-stopped-without-unsubscribing")
+	}
+	for n := 1; n <= 2; n++ {
+		e.BroadcastEvent(zzEvt{n})
+		drain()
+	}
+	for i := range subs {
+		var got []int
+		for _, g := range subs[i].Got {
+			if ev, ok := g.Msg.(zzEvt); ok {
+				got = append(got, ev.N)
+			}
+		}
+		if alive[i] {
+			zzrt.Assert(len(got) == 2 && got[0] == 1 && got[1] == 2, "C12:event-not-delivered-exactly-once-in-order-after-a-subscriber-died")
+		} else {
+			zzrt.Assert(len(got) == 0, "C12:event-delivered-to-a-stopped-subscriber")
+		}
+	}
+}
